@@ -291,4 +291,44 @@ pub proof fn lemma_to_optional_step(kids: Seq<Necessity<Element<String>>>, snap:
     assert(kids.take(i + 1).last() == kids[i]);
 }
 
+// ---- broadcast facts that let the two public entry points verify without any hint inside their bodies
+/// abs of a freshly created element is the synthetic root of the ghost algorithm
+pub broadcast proof fn lemma_abs_fresh(e: Element<String>)
+    requires e.children@.len() == 0, e.attributes@.len() == 0, e.text is None, e.count == 1, e.standalone, e.position is None,
+    ensures #[trigger] abs(e) == g_root(e.name),
+{
+    assert(abs_kids(e.children@) =~= Seq::empty());
+    assert(e.attributes@ =~= Seq::empty());
+}
+/// abs of the wrapper extend_struct builds (a fresh element with the previous root as its only, Mandatory, child)
+pub broadcast proof fn lemma_abs_wrapper(w: Element<String>, r: Element<String>)
+    requires
+        w.children@.len() == 1,
+        w.children@[0] == Necessity::Mandatory(Element { position: if r.position is None { Some(0usize) } else { r.position }, ..r }),
+        w.attributes@.len() == 0, w.text is None, w.count == 1, w.standalone, w.position is None,
+    ensures #![trigger abs(w), abs(r)] abs(w) == g_wrap(w.name, abs(r)),
+{
+    lemma_abs_kids_index(w.children@);
+    assert(w.attributes@ =~= Seq::empty());
+    let r2 = Element { position: if r.position is None { Some(0usize) } else { r.position }, ..r };
+    assert(abs_n(w.children@[0]).val() == abs(r2));
+    assert(abs(r2) == GEl { position: r2.position, ..abs(r) });
+    assert(abs_kids(w.children@) =~= g_wrap(w.name, abs(r)).kids);
+}
+/// the ghost children list mirrors the real one, entry by entry
+pub broadcast proof fn lemma_abs_kids_mirror(s: Seq<Necessity<Element<String>>>)
+    ensures
+        #![trigger abs_kids(s)]
+        abs_kids(s).len() == s.len(),
+        s.len() > 0 ==> abs_kids(s)[0].val() == abs(s[0].val()) && (abs_kids(s)[0] is Mandatory) == (s[0] is Mandatory),
+{
+    lemma_abs_kids_index(s);
+    if s.len() > 0 { lemma_abs_n_fields(s[0]); }
+}
+pub broadcast group group_entry_points {
+    lemma_abs_fresh,
+    lemma_abs_wrapper,
+    lemma_abs_kids_mirror,
+}
+
 } // verus!
